@@ -408,3 +408,32 @@ func strconvAtoi(s string) (int, bool) {
 	}
 	return n, true
 }
+
+// plainPathSignature: decision table of a small function without an automaton state: every acyclic path from the
+// entry to a return (a back edge ends a path as "again"), with its verdicts, callee / field-action names, cells
+// stored and canonical conditions (object fields, option masks and verdict tests against constants, field against
+// field).
+func plainPathSignature(c *Ctx, fn string) []string {
+	f := c.SFuncs[fn]
+	if f == nil {
+		return nil
+	}
+	sp := fsmSpec{fn: f, stateVar: "none", constName: map[int64]string{0: "any"}}
+	e := newErrAnalysis(c.Prog)
+	res := &fsmResult{spec: sp}
+	for _, t := range enumPaths(c, e, sp, 0) {
+		t.From = 0
+		if t.Exit == "" {
+			t.Exit = "again"
+		}
+		res.post = append(res.post, t)
+	}
+	if len(res.post) == 0 {
+		return nil
+	}
+	plainConds = true
+	defer func() { plainConds = false }()
+	return fsmSignature(res)
+}
+
+var plainConds bool
